@@ -469,6 +469,11 @@ def main():
               MX.snc0_barycentric_function_space, MX.generate_rwg0_map, MX._numba_rwg0_evaluate, MX._numba_snc0_evaluate, G._create_barycentric_connectivity_array,
               SD.dual0_function_space, SD.dual1_function_space):
         run.under_contract(f, dropped="numba decorators; float dtypes (exact rationals / symbols); scipy coo_matrix replaced by its dense-summation contract")
+    # support extension of P1 (and hence of DUAL0, which is built on it) beyond a segment: per-step block contract of _compute_p1_dof_map (V-engine, all sizes);
+    # its link to real executions is the bounded obligation `_p1_selection_block::native` of C09
+    from vlib import vrun as VR
+
+    VR.add_block(run, "contracts.dofmap_blocks", "_p1_selection_block")
     meshes = ["tetra", "fan3", "pair:2:012:120", "pair:2:120:201"] + (["screen2"] if thorough else [])
     for mesh in meshes:
         run.add("lemma.nesting[%s]" % mesh, "lemma", ob_nesting, mesh)
